@@ -84,6 +84,8 @@ func runC01(p *Prog, r *Result) {
 		r.Fatalf("%v", err)
 		return
 	}
+	r.Rule("R01e", "tree text reaches the tabwriter only through the escaping writer, and every escaping decision covers \\t, \\v and \\f", 8)
+	checkTabwriterEscaping(p, r, si.pkg, si, "R01e")
 	pkg := si.pkg
 	info := pkg.TypesInfo
 	g := buildRefGraph(p)
@@ -469,6 +471,10 @@ func inDefaultOfRootSwitch(g *FGraph, b *FBlock) bool {
 }
 
 var c01Controls = []Control{
+	{Name: "escape-only-tabs", Rule: "R01e", WantKey: "writeLit#escape decision", File: "syntax/printer.go",
+		Mutate: ctlReplaceAnywhere(`const tabwriterSpecial = "\t\v\f"`, `const tabwriterSpecial = "\t"`)},
+	{Name: "function-name-written-raw", Rule: "R01e", WantKey: "spacedString, which writes it raw", File: "syntax/printer.go",
+		Mutate: ctlReplaceAnywhere("\tp.spacePad(pos)\n\tp.writeLit(s)\n", "\tp.spacePad(pos)\n\tp.w.WriteString(s)\n")},
 	{Name: "pending-hdocs-truncated-under-alias", Rule: "R01d", WantKey: "flushHeredocs#p.pendingHdocs truncated", File: "syntax/printer.go",
 		Mutate: ctlReplaceAnywhere("p.pendingHdocs = nil\n", "p.pendingHdocs = p.pendingHdocs[:0]\n")},
 	{Name: "wordPart-drop-ExtGlob-case", Rule: "R01a", WantKey: "wordPart#switch WordPart/ExtGlob", File: "syntax/printer.go",
